@@ -41,8 +41,8 @@ Proof.
     apply wmw_txstep_set_ts.
     assert (H12 : wmw_tstep id ty (wm_tx_base x) (wm_tx_tk x) b2 t2).
     { eapply wmw_tstep_trans; [eapply wmw_core_wr_index_step; exact E1|eapply wmw_core_wr_summary_step; exact E2]. }
-    match goal with |- wmw_txstep _ _ _ (match ?g with Some up => if ?c then ?A else ?B | None => ?C end) =>
-      destruct g as [up|]; [destruct c|] end.
+    match goal with |- wmw_txstep _ _ _ (match ?g with Some _ => _ | None => _ end) => destruct g as [up|] end;
+      [match goal with |- wmw_txstep _ _ _ (if ?c then _ else _) => destruct c end|].
     + eapply wmw_txstep_trans; [|apply IH]. exact H12.
     + exact H12.
     + exact H12.
@@ -55,8 +55,8 @@ Proof.
   destruct (wm_ts_dec (wm_tx_ts x) <=? 1); [apply wmw_txstep_fault|].
   destruct (wm_ts_get (wm_ts_alloc (wm_tx_ts x) 1) 1) as [lv|]; [|apply wmw_txstep_fault].
   match goal with |- wmw_txstep _ _ _ (if ?c then _ else _) => destruct c end.
-  - eapply wmw_txstep_trans; [|apply wmw_ts_commit_step]. apply wmw_txstep_refl.
-  - apply wmw_txstep_refl.
+  - eapply wmw_txstep_trans; [|apply wmw_ts_commit_step]. apply wmw_txstep_set_ts, wmw_txstep_refl.
+  - apply wmw_txstep_set_ts, wmw_txstep_refl.
 Qed.
 
 Lemma wmw_ts_close_step : forall id ty x, wmw_txstep id ty x (wm_ts_close id x).
@@ -113,8 +113,8 @@ Proof.
     + eapply wmw_fxstep_trans; [|apply wmw_fxstep_fault]. exact H12.
     + match goal with |- wmw_fxstep _ _ _ (match wm_f_get_level (wm_fx_fsr ?x4) level with Some lv4 => _ | None => _ end) =>
         assert (H4 : wmw_fxstep (sg_id d) ty x x4) end.
-      { match goal with |- wmw_fxstep _ _ _ (match ?g with Some up => if ?c then _ else _ | None => _ end) =>
-          destruct g as [up|]; [destruct c|] end.
+      { match goal with |- wmw_fxstep _ _ _ (match ?g with Some _ => _ | None => _ end) => destruct g as [up|] end;
+          [match goal with |- wmw_fxstep _ _ _ (if ?c then _ else _) => destruct c end|].
         - eapply wmw_fxstep_trans; [|apply IH]. exact H12.
         - exact H12.
         - exact H12. }
@@ -129,8 +129,8 @@ Proof.
   intros ty d pos samples x. unfold wm_fsr_summary1. cbv zeta.
   destruct (wm_f_get_level (wm_fsr_level_alloc (wm_fx_fsr x) 1) 1) as [dst|]; [|apply wmw_fxstep_fault].
   match goal with |- wmw_fxstep _ _ _ (if ?c then _ else _) => destruct c end.
-  - eapply wmw_fxstep_trans; [|apply wmw_fsr_wr_summary_step]. apply wmw_fxstep_refl.
-  - apply wmw_fxstep_refl.
+  - eapply wmw_fxstep_trans; [|apply wmw_fsr_wr_summary_step]. apply wmw_fxstep_set_fsr, wmw_fxstep_refl.
+  - apply wmw_fxstep_set_fsr, wmw_fxstep_refl.
 Qed.
 
 Lemma wmw_fsr_wr_data_step : forall ty d x,
@@ -175,8 +175,8 @@ Proof.
   - destruct (n =? 0); [apply wmw_fxstep_refl|]. cbv zeta.
     eapply wmw_fxstep_trans; [|apply IH].
     match goal with |- wmw_fxstep _ _ _ (if ?c then _ else _) => destruct c end.
-    + apply wmw_fxstep_set_fsr_l. eapply wmw_fxstep_trans; [|apply wmw_fsr_wr_data_step]. apply wmw_fxstep_refl.
-    + apply wmw_fxstep_refl.
+    + eapply wmw_fxstep_trans; [|apply wmw_fsr_wr_data_step]. apply wmw_fxstep_set_fsr, wmw_fxstep_refl.
+    + apply wmw_fxstep_set_fsr, wmw_fxstep_refl.
 Qed.
 
 Lemma wmw_fsr_gap_loop_step : forall fuel ty d x skip buf_sz,
@@ -194,13 +194,13 @@ Proof.
   intros ty d x sample_id samples. unfold wm_fsr_data. cbv zeta.
   destruct (N.of_nat (length samples) =? 0); [apply wmw_fxstep_refl|].
   match goal with |- wmw_fxstep _ _ _ (if ?c then _ else _) => destruct c end.
-  - eapply wmw_fxstep_trans; [|apply wmw_fsr_wr_inner_step]. apply wmw_fxstep_refl.
+  - eapply wmw_fxstep_trans; [|apply wmw_fsr_wr_inner_step]. apply wmw_fxstep_set_fsr, wmw_fxstep_refl.
   - match goal with |- wmw_fxstep _ _ _ (if ?c then _ else _) => destruct c end.
     + match goal with |- wmw_fxstep _ _ _ (if ?c then _ else _) => destruct c end.
-      * apply wmw_fxstep_refl.
-      * eapply wmw_fxstep_trans; [|apply wmw_fsr_wr_inner_step]. apply wmw_fxstep_refl.
+      * apply wmw_fxstep_set_fsr, wmw_fxstep_refl.
+      * eapply wmw_fxstep_trans; [|apply wmw_fsr_wr_inner_step]. apply wmw_fxstep_set_fsr, wmw_fxstep_refl.
     + eapply wmw_fxstep_trans; [|apply wmw_fsr_wr_inner_step].
-      eapply wmw_fxstep_trans; [|apply wmw_fsr_gap_loop_step]. apply wmw_fxstep_refl.
+      eapply wmw_fxstep_trans; [|apply wmw_fsr_gap_loop_step]. apply wmw_fxstep_set_fsr, wmw_fxstep_refl.
 Qed.
 
 End WMW_FSR.
